@@ -360,7 +360,16 @@ fn run_int(path: &Path, width: usize, buf_items: Option<usize>, n: usize, stream
             ($t:ty, $name:expr, $lenname:expr) => {{
                 let items: Vec<$t> = (0..n).map(|i| stream.value(i) as $t).collect();
                 tr.at($name);
-                w.extend(items);
+                // `Extend` takes any iterator: one with an exact size hint (n % 3 == 0), one whose lower bound is 0
+                // (a filter that keeps everything), one with no bounds at all (from_fn).
+                match n % 3 {
+                    0 => w.extend(items),
+                    1 => w.extend(items.into_iter().filter(|_| true)),
+                    _ => {
+                        let mut it = items.into_iter();
+                        w.extend(std::iter::from_fn(move || it.next()))
+                    }
+                }
                 tr.step(n as u64);
                 tr.at("IntVectorWriter.len");
                 chk!(tr, w.len() == n, $lenname, "len() = {} after extending an empty writer with {} items", w.len(), n);
